@@ -16,6 +16,7 @@ Deciding monitors
 """
 import asyncio
 import itertools
+import re
 import os
 import sys
 import threading
@@ -345,6 +346,72 @@ def wsgi_stream_response(ctx, n, k, raise_at, kind="generator"):
     will_raise = raise_at is not None and raise_at < n and (k is None or raise_at < k)
     if (r.exc is not None) != will_raise or (r.exc is not None and not isinstance(r.exc, KeyError)):
         ctx.violation(f"wsgi-stream|exception-identity|{type(r.exc).__name__ if r.exc else 'none'}", case, repr(r.exc))
+
+
+def asgi_two_clients(ctx, cls_name, n, first_leaves_after, overlapped):
+    """ONE ASGI response object over a re-iterable producer answers two connections (one after the other, or overlapping in
+    time); the first client disconnects after `first_leaves_after` body events; the second stays: it must get all n items"""
+    from baize import asgi
+    sse = cls_name == "SendEventResponse"
+    loop = drivers.VLoop(max_iterations=200_000)
+    marks = {"entered": 0, "cleanup": 0}
+
+    class Feed:
+        def __aiter__(self):
+            return self.gen()
+
+        async def gen(self):
+            marks["entered"] += 1
+            try:
+                for i in range(n):
+                    await asyncio.sleep(0.1)
+                    yield {"data": str(i), "id": str(i)} if sse else b"%d;" % i
+            finally:
+                marks["cleanup"] += 1
+    resp = getattr(asgi, cls_name)(Feed(), **({"ping_interval": 30} if sse else {}))
+    out = {}
+
+    async def client(tag, leaves_after):
+        sent, gone = [], asyncio.Event()
+
+        async def receive():
+            await gone.wait()
+            return {"type": "http.disconnect"}
+
+        async def send(m):
+            sent.append(m)
+            if leaves_after is not None and len([x for x in sent if x["type"] == "http.response.body"]) >= leaves_after:
+                gone.set()
+        await resp(drivers.to_scope(drivers.Req()), receive, send)
+        out[tag] = sent
+
+    async def main():
+        if overlapped:
+            await asyncio.gather(client("first", first_leaves_after), client("second", None))
+        else:
+            await client("first", first_leaves_after)
+            await client("second", None)
+        for _ in range(20):
+            await asyncio.sleep(0)
+    case = {"class": "asgi." + cls_name, "scenario": "one response object, two clients", "n": n, "first_client_leaves_after": first_leaves_after, "overlapped": overlapped}
+    ctx.mon("asgi-two-clients-one-object")
+    try:
+        loop.run_until_complete(asyncio.wait_for(main(), 10_000))
+        loop.run_until_complete(loop.shutdown_asyncgens())
+    except asyncio.TimeoutError:
+        ctx.violation("asgi-two-clients|call-never-returns", case, "")
+        return
+    except Exception as e:  # noqa
+        ctx.violation(f"asgi-two-clients|unexpected-exception-{type(e).__name__}", case, repr(e)[:200])
+        return
+    finally:
+        loop.close()
+    body = b"".join(m.get("body", b"") for m in out.get("second", [])[1:])
+    ids = [int(x) for x in (re.findall(rb"id: (\d+)", body) if sse else [y for y in body.split(b";") if y])]
+    if ids != list(range(n)):
+        ctx.violation("asgi-two-clients|second-client-lost-items", case, f"the client that stayed got {ids}; the producer yields 0..{n - 1}")
+    elif marks["entered"] != marks["cleanup"]:
+        ctx.violation("asgi-two-clients|producer-not-closed", case, repr(marks))
 
 
 def other_methods(ctx, iface, cls_name, method, kind):
@@ -1083,6 +1150,15 @@ def run(ctx):
         ctx.mon("overlapped-clients", 0)
         ctx.mon("pool-after-early-closes", 0)
     if ctx.shard == 0:
+        for cls_name in ("StreamResponse", "SendEventResponse"):
+            for n in (1, 3, 6):
+                for k in (0, 1, 2):
+                    for overlapped in (False, True):
+                        asgi_two_clients(ctx, cls_name, n, k, overlapped)
+                        ctx.case_enum(True)
+    else:
+        ctx.mon("asgi-two-clients-one-object", 0)
+    if ctx.shard == 0:
         for iface in ("wsgi", "asgi"):
             for cls_name in ("StreamResponse", "SendEventResponse"):
                 for method in ("HEAD", "POST", "OPTIONS", "DELETE"):
@@ -1153,6 +1229,10 @@ def run(ctx):
 
 
 def replay(ctx, case):
+    if case.get("scenario") == "one response object, two clients" and case.get("class", "").startswith("asgi."):
+        asgi_two_clients(ctx, case["class"].split(".")[1], case["n"], case["first_client_leaves_after"], case["overlapped"])
+        ctx.case(1)
+        return
     if "request_method" in case:
         iface, cls_name = case["class"].split(".")
         other_methods(ctx, iface, cls_name, case["request_method"], case["producer"])
